@@ -353,6 +353,118 @@ func joinFrom(fs []Field, i int, kv, sep byte) string {
 //@ func checkNotContains(s string, chars string) (err error)
 //@   ensures refuse: (err == nil) == (forall j in (0, len(s)) :: !memberB(chars, s[j]))
 
+// pieces / okPieces: what the cursor-based array decoders deliver for the remaining input s and
+// whether they succeed (an empty remainder is an error, io.EOF): written from the OpenAPI notion of
+// a delimiter-separated list, first delimiter first.
+func pieces(s string, d byte) []string {
+	if indexB(s, d) >= 0 {
+		return append([]string{s[:indexB(s, d)]}, pieces(s[indexB(s, d)+1:], d)...)
+	}
+	if len(s) > 0 {
+		return []string{s}
+	}
+	return nil
+}
+
+func okPieces(s string, d byte) bool {
+	if indexB(s, d) >= 0 {
+		return okPieces(s[indexB(s, d)+1:], d)
+	}
+	return len(s) > 0
+}
+
+//@ func parseArray(cur *cursor, delim byte, f func(d Decoder) error) (err error)
+//@   callback f(d Decoder) log vals d.(*constval).v
+//@   requires wf:    cur != nil && 0 <= cur.pos && cur.pos <= len(cur.src)
+//@   requires ascii: delim < 0x80
+//@   modifies cur.pos, cb:f
+//@   ensures frame: cur.src == old(cur.src) && 0 <= cur.pos && cur.pos <= len(cur.src)
+//@   ensures items: vCbOK(f) && err == nil ==> vSeqEq(vCbLog(f, "vals"), vCat(old(vCbLog(f, "vals")), pieces(old(cur.src)[old(cur.pos):], delim)))
+//@   ensures ok:    vCbOK(f) ==> (err == nil) == okPieces(old(cur.src)[old(cur.pos):], delim)
+//@   ensures cbfail: old(vCbOK(f)) && !vCbOK(f) ==> err != nil
+//@   ensures mono:  vCbOK(f) ==> old(vCbOK(f))
+//@   uses indexBRange
+//@   loop 0 invariant wf:   cur.src == old(cur.src) && 0 <= cur.pos && cur.pos <= len(cur.src)
+//@   loop 0 invariant mono: vCbOK(f) == old(vCbOK(f))
+//@   loop 0 invariant acc:  vCbOK(f) ==> vSeqEq(vCat(vCbLog(f, "vals"), pieces(cur.src[cur.pos:], delim)), vCat(old(vCbLog(f, "vals")), pieces(old(cur.src)[old(cur.pos):], delim)))
+//@   loop 0 invariant ok:   vCbOK(f) ==> okPieces(cur.src[cur.pos:], delim) == okPieces(old(cur.src)[old(cur.pos):], delim)
+//@   loop 0 decreases len(cur.src) - cur.pos
+
+// fieldNames / fieldValues / okFields: what the cursor-based object decoder delivers for the
+// remaining input s — a name ends at the first kv separator, its value at the first field
+// separator — and whether it succeeds (a name without separator, or an empty last value, is an
+// error). The *After functions describe the state after a name n has been read.
+func fieldNames(s string, kv, fs byte) []string {
+	if indexB(s, kv) < 0 {
+		return nil
+	}
+	return namesAfter(s[:indexB(s, kv)], s[indexB(s, kv)+1:], kv, fs)
+}
+
+func namesAfter(n string, r string, kv, fs byte) []string {
+	if indexB(r, fs) < 0 {
+		if len(r) == 0 {
+			return nil
+		}
+		return []string{n}
+	}
+	return append([]string{n}, fieldNames(r[indexB(r, fs)+1:], kv, fs)...)
+}
+
+func fieldValues(s string, kv, fs byte) []string {
+	if indexB(s, kv) < 0 {
+		return nil
+	}
+	return valuesAfter(s[indexB(s, kv)+1:], kv, fs)
+}
+
+func valuesAfter(r string, kv, fs byte) []string {
+	if indexB(r, fs) < 0 {
+		if len(r) == 0 {
+			return nil
+		}
+		return []string{r}
+	}
+	return append([]string{r[:indexB(r, fs)]}, fieldValues(r[indexB(r, fs)+1:], kv, fs)...)
+}
+
+func okFields(s string, kv, fs byte) bool {
+	if indexB(s, kv) < 0 {
+		return false
+	}
+	return okAfter(s[indexB(s, kv)+1:], kv, fs)
+}
+
+func okAfter(r string, kv, fs byte) bool {
+	if indexB(r, fs) < 0 {
+		return len(r) > 0
+	}
+	return okFields(r[indexB(r, fs)+1:], kv, fs)
+}
+
+//@ func decodeObject(cur *cursor, kvSep byte, fieldSep byte, f func(field string, value string) error) (err error)
+//@   callback f(field string, value string) log names field
+//@   callback f(field string, value string) log values value
+//@   requires wf:    cur != nil && 0 <= cur.pos && cur.pos <= len(cur.src)
+//@   requires ascii: kvSep < 0x80 && fieldSep < 0x80
+//@   modifies cur.pos, cb:f
+//@   ensures frame:  cur.src == old(cur.src) && 0 <= cur.pos && cur.pos <= len(cur.src)
+//@   ensures names:  vCbOK(f) && err == nil ==> vSeqEq(vCbLog(f, "names"), vCat(old(vCbLog(f, "names")), fieldNames(old(cur.src)[old(cur.pos):], kvSep, fieldSep)))
+//@   ensures values: vCbOK(f) && err == nil ==> vSeqEq(vCbLog(f, "values"), vCat(old(vCbLog(f, "values")), fieldValues(old(cur.src)[old(cur.pos):], kvSep, fieldSep)))
+//@   ensures ok:     vCbOK(f) ==> (err == nil) == okFields(old(cur.src)[old(cur.pos):], kvSep, fieldSep)
+//@   ensures cbfail: old(vCbOK(f)) && !vCbOK(f) ==> err != nil
+//@   ensures mono:   vCbOK(f) ==> old(vCbOK(f))
+//@   uses indexBRange
+//@   loop 0 vars fname string, field bool
+//@   loop 0 invariant wf:    cur.src == old(cur.src) && 0 <= cur.pos && cur.pos <= len(cur.src)
+//@   loop 0 invariant mono:  vCbOK(f) == old(vCbOK(f))
+//@   loop 0 invariant namesF: vCbOK(f) && field ==> vSeqEq(vCat(vCbLog(f, "names"), fieldNames(cur.src[cur.pos:], kvSep, fieldSep)), vCat(old(vCbLog(f, "names")), fieldNames(old(cur.src)[old(cur.pos):], kvSep, fieldSep)))
+//@   loop 0 invariant namesV: vCbOK(f) && !field ==> vSeqEq(vCat(vCbLog(f, "names"), namesAfter(fname, cur.src[cur.pos:], kvSep, fieldSep)), vCat(old(vCbLog(f, "names")), fieldNames(old(cur.src)[old(cur.pos):], kvSep, fieldSep)))
+//@   loop 0 invariant valsF:  vCbOK(f) && field ==> vSeqEq(vCat(vCbLog(f, "values"), fieldValues(cur.src[cur.pos:], kvSep, fieldSep)), vCat(old(vCbLog(f, "values")), fieldValues(old(cur.src)[old(cur.pos):], kvSep, fieldSep)))
+//@   loop 0 invariant valsV:  vCbOK(f) && !field ==> vSeqEq(vCat(vCbLog(f, "values"), valuesAfter(cur.src[cur.pos:], kvSep, fieldSep)), vCat(old(vCbLog(f, "values")), fieldValues(old(cur.src)[old(cur.pos):], kvSep, fieldSep)))
+//@   loop 0 invariant okF:    vCbOK(f) && field ==> okFields(cur.src[cur.pos:], kvSep, fieldSep) == okFields(old(cur.src)[old(cur.pos):], kvSep, fieldSep)
+//@   loop 0 invariant okV:    vCbOK(f) && !field ==> okAfter(cur.src[cur.pos:], kvSep, fieldSep) == okFields(old(cur.src)[old(cur.pos):], kvSep, fieldSep)
+
 func validPathStyle(s PathStyle) bool {
 	return s == PathStyleSimple || s == PathStyleLabel || s == PathStyleMatrix
 }
